@@ -3,6 +3,15 @@
 // protocol).  Compiled twice: with -DSBEPP_DISABLE_ASSERTS (chk = 0, pure
 // address arithmetic, entries are never dereferenced) and with
 // -DSBEPP_ENABLE_ASSERTS_WITH_HANDLER (chk = 1).
+//
+// Every case line names the dimension composite of its group as
+//     S B shape H obl ong
+// (numInGroup type, blockLength type, composite shape std|ext|pad|rev, size of
+// the composite, offsets of blockLength / numInGroup).  This side dispatches on
+// shape/S/B only; the header BYTES (H of them) come from the case line - built
+// by harness/props/c12.py with blockLength and numInGroup at the composite's
+// member offsets and filler everywhere else - and are copied verbatim.  H is
+// cross-checked against sbepp::composite_traits<dimension>::size_bytes().
 #include <sbepp/sbepp.hpp>
 #include <hs_c12/hs_c12.hpp>
 #include "harness_util.hpp"
@@ -36,17 +45,38 @@ static long long rel(const unsigned char* p, const origin& o)
 // a header-sized scratch area; the group view starts at bytes + 64
 struct area
 {
-    // [margin | header (<= 16 bytes) | margin]
-    alignas(16) unsigned char bytes[64 + 64];
+    // [margin | header (<= 64 bytes) | margin]
+    alignas(16) unsigned char bytes[64 + 64 + 64];
 };
 
-template<typename S, typename B>
-static void write_header(unsigned char* g, unsigned long long ng, unsigned long long bl)
+static const std::size_t max_header = 64;
+
+// the dimension composite of group Tag: its size as the library sees it, and the
+// agreement of the view's types with the S / B of the case line
+template<typename Tag, typename S, typename B>
+struct dim_info
 {
-    const B b = static_cast<B>(bl);
-    const S n = static_cast<S>(ng);
-    std::memcpy(g, &b, sizeof b); // little-endian host == schema byte order
-    std::memcpy(g + sizeof b, &n, sizeof n);
+    using G = group_t<Tag>;
+    using D = typename sbepp::group_traits<Tag>::template dimension_type<unsigned char>;
+    static_assert(std::is_same<typename G::size_type, S>::value, "numInGroup type of the case line");
+    static_assert(
+        std::is_same<typename std::decay<decltype(std::declval<D>().blockLength().value())>::type, B>::value,
+        "blockLength type of the case line");
+    static std::size_t size()
+    {
+        return sbepp::composite_traits<typename sbepp::group_traits<Tag>::dimension_type_tag>::size_bytes();
+    }
+};
+
+// header bytes of the case line -> g;  false: malformed line / H is not the composite's size
+template<typename Tag, typename S, typename B>
+static bool put_header(unsigned char* g, const std::string& h, const std::string& hex)
+{
+    const std::vector<unsigned char> v = hu::unhex(hex);
+    if(v.size() != hu::to_u64(h) || v.size() > max_header || v.size() != dim_info<Tag, S, B>::size())
+        return false;
+    std::memcpy(g, v.data(), v.size()); // little-endian host == schema byte order
+    return true;
 }
 
 template<typename G>
@@ -70,20 +100,20 @@ static std::string cmp6(const It& a, const It& c)
     return s;
 }
 
-// c12f impl chk S B goff ng bl elen start k (op arg)*k m
+// c12f impl chk S B shape H obl ong hdr goff ng bl elen start k (op arg)*k m
 template<typename Tag, typename S, typename B>
 static std::string run_expr(const std::vector<std::string>& a)
 {
     using G = group_t<Tag>;
     using It = typename G::iterator;
     static area ar;
-    const long long goff = hu::to_i64(a[5]);
+    const long long goff = hu::to_i64(a[10]);
     unsigned char* g = ar.bytes + 64;
     const origin base{reinterpret_cast<std::uintptr_t>(g), goff};
-    write_header<S, B>(g, hu::to_u64(a[6]), hu::to_u64(a[7]));
-    const G view = make_view<G>(g, hu::to_i64(a[8]));
-    const bool from_begin = a[9] == "b";
-    const std::size_t k = static_cast<std::size_t>(hu::to_u64(a[10]));
+    if(!put_header<Tag, S, B>(g, a[6], a[9])) return "ERR-hsize";
+    const G view = make_view<G>(g, hu::to_i64(a[13]));
+    const bool from_begin = a[14] == "b";
+    const std::size_t k = static_cast<std::size_t>(hu::to_u64(a[15]));
     std::ostringstream os;
     const int rc = hu::guarded(
         [&]
@@ -93,8 +123,8 @@ static std::string run_expr(const std::vector<std::string>& a)
             It it = from_begin ? b : e;
             for(std::size_t i = 0; i < k; i++)
             {
-                const std::string& op = a[11 + 2 * i];
-                const long long n = hu::to_i64(a[12 + 2 * i]);
+                const std::string& op = a[16 + 2 * i];
+                const long long n = hu::to_i64(a[17 + 2 * i]);
                 if(op == "inc") ++it;
                 else if(op == "pinc") it++;
                 else if(op == "dec") --it;
@@ -106,7 +136,7 @@ static std::string run_expr(const std::vector<std::string>& a)
                 else if(op == "sub") it = it - n;
                 else os << "ERR-op ";
             }
-            const long long m = hu::to_i64(a[11 + 2 * k]);
+            const long long m = hu::to_i64(a[16 + 2 * k]);
             os << "p=" << rel(sbepp::addressof(*it), base)
                << " db=" << static_cast<long long>(it - b)
                << " de=" << static_cast<long long>(e - it)
@@ -128,19 +158,19 @@ static std::string field(F&& f)
     return os.str();
 }
 
-// c12g impl chk S B goff ng bl elen pos k
+// c12g impl chk S B shape H obl ong hdr goff ng bl elen pos k
 template<typename Tag, typename S, typename B>
 static std::string run_group(const std::vector<std::string>& a)
 {
     using G = group_t<Tag>;
     static area ar;
-    const long long goff = hu::to_i64(a[5]);
+    const long long goff = hu::to_i64(a[10]);
     unsigned char* g = ar.bytes + 64;
     const origin base{reinterpret_cast<std::uintptr_t>(g), goff};
-    write_header<S, B>(g, hu::to_u64(a[6]), hu::to_u64(a[7]));
-    const G view = make_view<G>(g, hu::to_i64(a[8]));
-    const unsigned long long pos = hu::to_u64(a[9]);
-    const unsigned long long k = hu::to_u64(a[10]);
+    if(!put_header<Tag, S, B>(g, a[6], a[9])) return "ERR-hsize";
+    const G view = make_view<G>(g, hu::to_i64(a[13]));
+    const unsigned long long pos = hu::to_u64(a[14]);
+    const unsigned long long k = hu::to_u64(a[15]);
     std::string out;
     out += "size=" + field([&]() -> unsigned long long { return static_cast<unsigned long long>(view.size()); });
     out += " begin=" + field([&]() -> long long { return rel(sbepp::addressof(*view.begin()), base); });
@@ -160,15 +190,16 @@ static std::string run_group(const std::vector<std::string>& a)
     return out;
 }
 
-// c12r kind chk S B hex p elen count
+// c12r kind chk S B shape H obl ong hex p elen count
 template<typename Tag, typename S, typename B>
 static std::string run_resize(const std::vector<std::string>& a)
 {
     using G = group_t<Tag>;
-    std::vector<unsigned char> bytes = hu::unhex(a[5]);
-    const std::size_t p = static_cast<std::size_t>(hu::to_u64(a[6]));
-    const long long elen = hu::to_i64(a[7]);
-    const unsigned long long count = hu::to_u64(a[8]);
+    if(hu::to_u64(a[6]) != dim_info<Tag, S, B>::size()) return "ERR-hsize";
+    std::vector<unsigned char> bytes = hu::unhex(a[9]);
+    const std::size_t p = static_cast<std::size_t>(hu::to_u64(a[10]));
+    const long long elen = hu::to_i64(a[11]);
+    const unsigned long long count = hu::to_u64(a[12]);
     hu::guarded_buffer gb(bytes.size());
     std::memcpy(gb.begin, bytes.data(), bytes.size());
     const G view = make_view<G>(gb.begin + p, elen);
@@ -182,22 +213,27 @@ static std::string run_resize(const std::vector<std::string>& a)
     return out;
 }
 
-// c12n chk S B pre bl cut k (ibl icnt)*k
+// c12n chk S B shape H obl ong hdr pre bl cut k (ibl icnt)*k
 template<typename Tag, typename S, typename B>
 static std::string run_nested(const std::vector<std::string>& a)
 {
     using G = group_t<Tag>;
-    const std::size_t pre = static_cast<std::size_t>(hu::to_u64(a[4]));
-    const std::size_t bl = static_cast<std::size_t>(hu::to_u64(a[5]));
-    const std::size_t cut = static_cast<std::size_t>(hu::to_u64(a[6]));
-    const std::size_t k = static_cast<std::size_t>(hu::to_u64(a[7]));
+    const std::size_t pre = static_cast<std::size_t>(hu::to_u64(a[9]));
+    const std::size_t bl = static_cast<std::size_t>(hu::to_u64(a[10]));
+    const std::size_t cut = static_cast<std::size_t>(hu::to_u64(a[11]));
+    const std::size_t k = static_cast<std::size_t>(hu::to_u64(a[12]));
     std::vector<unsigned char> full(pre, 0xEE);
-    full.resize(pre + sizeof(B) + sizeof(S));
-    write_header<S, B>(full.data() + pre, k, bl);
+    {
+        // the dimension composite: bytes of the case line (blockLength = bl and
+        // numInGroup = k at the member offsets)
+        unsigned char h[max_header];
+        if(!put_header<Tag, S, B>(h, a[5], a[8])) return "ERR-hsize";
+        full.insert(full.end(), h, h + dim_info<Tag, S, B>::size());
+    }
     for(std::size_t i = 0; i < k; i++)
     {
-        const std::uint16_t ibl = static_cast<std::uint16_t>(hu::to_u64(a[8 + 2 * i]));
-        const std::uint16_t icnt = static_cast<std::uint16_t>(hu::to_u64(a[9 + 2 * i]));
+        const std::uint16_t ibl = static_cast<std::uint16_t>(hu::to_u64(a[13 + 2 * i]));
+        const std::uint16_t icnt = static_cast<std::uint16_t>(hu::to_u64(a[14 + 2 * i]));
         full.insert(full.end(), bl, 0x11);
         unsigned char h[4];
         std::memcpy(h, &ibl, 2);
@@ -241,6 +277,8 @@ static std::string run_nested(const std::vector<std::string>& a)
 #define DISPATCH16(FN, PREFIX, args)                                                          \
     do                                                                                        \
     {                                                                                         \
+        DISPATCH_SHAPES(FN, PREFIX, args);                                                    \
+        if((args)[s_idx + 2] != "std") break;                                                 \
         const std::string key = (args)[s_idx] + "/" + (args)[s_idx + 1];                      \
         if(key == "u8/u8") return FN<M::PREFIX##u8_u8::g, std::uint8_t, std::uint8_t>(args);  \
         if(key == "u8/u16") return FN<M::PREFIX##u8_u16::g, std::uint8_t, std::uint16_t>(args); \
@@ -260,9 +298,29 @@ static std::string run_nested(const std::vector<std::string>& a)
         if(key == "u64/u64") return FN<M::PREFIX##u64_u64::g, std::uint64_t, std::uint64_t>(args); \
     } while(0)
 
+// the other composite shapes: ext = blockLength, numInGroup, numGroups (uint16),
+// numVarDataFields (uint8); pad = blockLength at offset 0, numInGroup at offset 8;
+// rev = numInGroup declared before blockLength.  key = shape/S/B
+#define DISPATCH_SHAPES(FN, PREFIX, args)                                                     \
+    do                                                                                        \
+    {                                                                                         \
+        const std::string key =                                                               \
+            (args)[s_idx + 2] + "/" + (args)[s_idx] + "/" + (args)[s_idx + 1];                \
+        if(key == "ext/u8/u16") return FN<M::PREFIX##ext_u8_u16::g, std::uint8_t, std::uint16_t>(args);   \
+        if(key == "ext/u16/u16") return FN<M::PREFIX##ext_u16_u16::g, std::uint16_t, std::uint16_t>(args); \
+        if(key == "ext/u32/u32") return FN<M::PREFIX##ext_u32_u32::g, std::uint32_t, std::uint32_t>(args); \
+        if(key == "ext/u16/u8") return FN<M::PREFIX##ext_u16_u8::g, std::uint16_t, std::uint8_t>(args);   \
+        if(key == "pad/u8/u32") return FN<M::PREFIX##pad_u8_u32::g, std::uint8_t, std::uint32_t>(args);   \
+        if(key == "pad/u64/u16") return FN<M::PREFIX##pad_u64_u16::g, std::uint64_t, std::uint16_t>(args); \
+        if(key == "rev/u16/u32") return FN<M::PREFIX##rev_u16_u32::g, std::uint16_t, std::uint32_t>(args); \
+        if(key == "rev/u32/u8") return FN<M::PREFIX##rev_u32_u8::g, std::uint32_t, std::uint8_t>(args);   \
+    } while(0)
+
 #define DISPATCH_NESTED(FN, args)                                                             \
     do                                                                                        \
     {                                                                                         \
+        DISPATCH_SHAPES(FN, n_, args);                                                        \
+        if((args)[s_idx + 2] != "std") break;                                                 \
         const std::string key = (args)[s_idx] + "/" + (args)[s_idx + 1];                      \
         if(key == "u8/u8") return FN<M::n_u8_u8::g, std::uint8_t, std::uint8_t>(args);        \
         if(key == "u16/u16") return FN<M::n_u16_u16::g, std::uint16_t, std::uint16_t>(args);  \
@@ -321,19 +379,19 @@ int main()
         }
         const std::string& cmd = a[0];
         std::string out = "ERR";
-        if(cmd == "c12f" && a.size() >= 12 && a.size() == 12 + 2 * hu::to_u64(a[10]))
+        if(cmd == "c12f" && a.size() >= 17 && a.size() == 17 + 2 * hu::to_u64(a[15]))
         {
             out = (hu::to_i64(a[2]) == harness_chk) ? do_expr(a) : "ERR-chk";
         }
-        else if(cmd == "c12g" && a.size() == 11)
+        else if(cmd == "c12g" && a.size() == 16)
         {
             out = (hu::to_i64(a[2]) == harness_chk) ? do_group(a) : "ERR-chk";
         }
-        else if(cmd == "c12r" && a.size() == 9)
+        else if(cmd == "c12r" && a.size() == 13)
         {
             out = (hu::to_i64(a[2]) == harness_chk) ? do_resize(a) : "ERR-chk";
         }
-        else if(cmd == "c12n" && a.size() >= 8 && a.size() == 8 + 2 * hu::to_u64(a[7]))
+        else if(cmd == "c12n" && a.size() >= 13 && a.size() == 13 + 2 * hu::to_u64(a[12]))
         {
             out = (hu::to_i64(a[1]) == harness_chk) ? do_nested(a) : "ERR-chk";
         }
